@@ -136,6 +136,12 @@ func execStop(input string) Result {
 	sc := scanWarcDir(filepath.Join(sp.Dir, "jobs"))
 	crashed := res == nil || (status != "" && !strings.HasPrefix(status, "watchdog"))
 	returned := res != nil && res.StopReturned
+	if sp.StopSignal != "" && res != nil && res.StopCalled {
+		// the signal handler stops the pipeline and exits 0 itself: "returned" = the process ended by itself with exit
+		// code 0 (a process killed by the signal, or a non-zero exit, shows up in status)
+		returned = status == ""
+		crashed = status != "" && !strings.HasPrefix(status, "watchdog")
+	}
 	paused := res != nil && res.PausedAtStop
 	workersAfter := 0
 	if res != nil {
@@ -171,7 +177,7 @@ func execStop(input string) Result {
 }
 
 var stopMoments = []string{"", "lq.inserted", "pre.in", "pre.done", "arch.in", "arch.fetch", "arch.written", "arch.done", "post.in", "post.done",
-	"fin.in", "fin.feedback", "fin.finished", "fin.notified", "lq.deleted", "paused", "paused", "paused", "diskpaused", "stalled", "fin.produce", "fin.produce"}
+	"fin.in", "fin.feedback", "fin.finished", "fin.notified", "lq.deleted", "paused", "paused", "paused", "diskpaused", "stalled", "fin.produce", "fin.produce", "backoff", "backoff"}
 
 func genStop(r *Rng, i int, tier string) string {
 	w := []int{1, 2, 2, 3, 4}[r.Intn(5)]
@@ -191,6 +197,9 @@ func genStop(r *Rng, i int, tier string) string {
 	}
 	if r.Chance(20) {
 		s += " ondisk=1"
+	}
+	if r.Chance(25) {
+		s += []string{" sig=TERM", " sig=TERM", " sig=INT"}[r.Intn(3)] // the stop request arrives as a signal (controler.WatchSignals)
 	}
 	if r.Chance(45) {
 		s += " maxhops=1" // outlinks flow through the postprocessor -> finisher -> queue path while stopping
@@ -228,6 +237,11 @@ func genStop(r *Rng, i int, tier string) string {
 			s += " proxy=1"
 		}
 		s += fmt.Sprintf(" mode=stall httpto=%d stop=arch.fetch:%d", 2+r.Intn(2), 1+r.Intn(5))
+	case "backoff":
+		// the stop comes while a worker sits out the back-off between two attempts after a transport-level failure
+		// (first attempts of half the resources die without an answer, a later one succeeds)
+		s = strings.Replace(strings.Replace(s, " retry=0 ", " retry=2 ", 1), " retry=1 ", " retry=2 ", 1)
+		s += fmt.Sprintf(" mode=flaky stop=arch.fetch:%d", 1+r.Intn(5))
 	case "fin.produce":
 		// in the middle of a burst of outlinks travelling postprocessor -> finisher -> queue (link-rich pages, few workers)
 		if !strings.Contains(s, "maxhops=1") {
